@@ -243,7 +243,7 @@ pub(crate) fn resolve_const_type(ty: &Type, const_sizes: &HashMap<String, usize>
         ),
         Type::ArrayConstExpr(elem_ty, size) => Type::Array(
             Box::new(resolve_const_type(elem_ty, const_sizes)),
-            resolve_const_expr_usize(size, const_sizes),
+            resolve_const_expr_usize(size, const_sizes, USIZE_BITS),
         ),
         Type::Tuple(elems) => Type::Tuple(
             elems
